@@ -13,7 +13,11 @@ import pandas
 import scipy.sparse as spsparse
 from interface_meta import override
 
-from formulaic.utils.cast import as_columns, narwhals_series_to_pandas
+from formulaic.utils.cast import (
+    as_columns,
+    narwhals_categories,
+    narwhals_series_to_pandas,
+)
 from formulaic.utils.null_handling import drop_rows as drop_nulls
 
 from .base import FormulaMaterializer
@@ -103,10 +107,15 @@ class NarwhalsMaterializer(FormulaMaterializer):
         # rank will be reduced in the _encode_evaled_factor method.
         from formulaic.transforms import encode_contrasts
 
+        categories = (
+            narwhals_categories(values)
+            if nw.dependencies.is_narwhals_series(values)
+            else None
+        )
         if drop_rows:
             values = drop_nulls(values, indices=drop_rows)
         if nw.dependencies.is_narwhals_series(values):
-            values = narwhals_series_to_pandas(values)
+            values = narwhals_series_to_pandas(values, categories=categories)
 
         return as_columns(
             encode_contrasts(
